@@ -173,10 +173,23 @@ def run_paths(stmts, env, loop_iters=(0, 1), stop_at=None, opaque_calls=True, ma
                         elif isinstance(t, ast.Subscript):
                             stores.append((norm(t), v, n))
                         elif isinstance(t, ast.Tuple):
-                            for el in t.elts:
+                            vals = None
+                            if isinstance(n.value, ast.Tuple) and len(n.value.elts) == len(t.elts):
+                                vals = []
+                                for ve in n.value.elts:
+                                    try:
+                                        f2 = _F(e)
+                                        f2.opaque_calls = opaque_calls
+                                        vals.append(f2.fold(ve))
+                                    except NotConstant:
+                                        vals.append(UNKNOWN)
+                            elif v is not UNKNOWN and isinstance(v, tuple | list) and len(v) == len(t.elts):
+                                vals = list(v)
+                            for k_, el in enumerate(t.elts):
                                 dd = dotted(el)
                                 if dd:
-                                    e[dd] = UNKNOWN
+                                    e[dd] = vals[k_] if vals is not None else UNKNOWN
+                                    stores.append((dd, e[dd], n))
                 elif isinstance(n, ast.AugAssign):
                     d = dotted(n.target)
                     if d:
